@@ -106,6 +106,12 @@ def transformations(rng, case):
         for f in case.quant:
             cands = [(a, b) for a in (2.0, 4.0, 0.5, 1024.0) for b in (0.0, 8.0, -64.0)]
             cands = [cands[k] for k in rng.permutation(len(cands))]
+            # maps sending an observed value (a future boundary) exactly onto 0.0 -- zero is falsy, a classic special case
+            obs = c.X[f].astype(float).dropna().unique()
+            if len(obs) and rng.random() < 0.5:
+                x0 = float(obs[int(rng.integers(len(obs)))])
+                a0 = gen.pick(rng, [1.0, 2.0, 0.5])
+                cands = [(a0, -a0 * x0)] + cands
             chosen = None
             for a, b in cands:  # first map that is exactly invertible and strictly monotone on this column
                 good = True
@@ -130,6 +136,25 @@ def transformations(rng, case):
                     fr[f] = a * fr[f].astype(float).values + b
             desc[f] = (a, b)
         out.append(("affine" if ok_all else "affine_not_exact_skipped", c if ok_all else None, desc))
+    # 3b. shifts sending each observed value in turn exactly onto 0.0 (single quantitative feature with missing values)
+    if len(case.quant) == 1 and len(case.features) == 1 and case.X[case.quant[0]].isna().any():
+        f = case.quant[0]
+        obs = np.sort(case.X[f].astype(float).dropna().unique())
+        if len(obs) <= 12:
+            for x0 in [obs[k] for k in rng.permutation(len(obs))[:4]]:
+                c = clone_case(case)
+                good = True
+                for fr in (c.X, c.X_dev):
+                    if fr is None:
+                        continue
+                    x = fr[f].astype(float).values
+                    z = x - x0
+                    fin = ~np.isnan(x)
+                    if not np.all((z + x0)[fin] == x[fin]):
+                        good = False
+                    fr[f] = z
+                if good:
+                    out.append(("affine_zero", c, {f: (1.0, -float(x0))}))
     # 4. renaming of categories by a common prefix (order-preserving bijection)
     if case.qual:
         c = clone_case(case)
@@ -229,7 +254,7 @@ def run_case(tier, seed, i):
             viols.append({"kind": "reencoded_fit_raised", "transformation": name, "msg": f"[{name}] re-encoded fit raised {common.exc_name(e)}: {str(e)[:160]} while the original fit completed"})
             continue
         if kept0 != kept1:
-            viols.append({"kind": "kept_features_differ", "transformation": name, "msg": f"[{name}] kept features {kept1} != original {kept0}" + (f" (maps {aux})" if name == "affine" else "")})
+            viols.append({"kind": "kept_features_differ", "transformation": name, "msg": f"[{name}] kept features {kept1} != original {kept0}" + (f" (maps {aux})" if name.startswith("affine") else "")})
             continue
         for f in kept0:
             counters["features_compared"] += 1
@@ -239,7 +264,7 @@ def run_case(tier, seed, i):
                 p1 = sorted(tuple(sorted(int(perm[j]) for j in block)) for block in p1)
             if p1 != parts0[f]:
                 viols.append({"kind": "partition_differs", "transformation": name, "feature": f,
-                              "msg": f"[{name}] partition of rows for {f} differs: {len(parts0[f])} groups originally (sizes {sorted(len(b) for b in parts0[f])}) vs {len(p1)} (sizes {sorted(len(b) for b in p1)})" + (f" (maps {aux})" if name == "affine" else "")})
+                              "msg": f"[{name}] partition of rows for {f} differs: {len(parts0[f])} groups originally (sizes {sorted(len(b) for b in parts0[f])}) vs {len(p1)} (sizes {sorted(len(b) for b in p1)})" + (f" (maps {aux})" if name.startswith("affine") else "")})
     for v in viols:
         v["mechanism"] = None
     sample["transformations"] = done
